@@ -23,8 +23,9 @@ fn c16_recvmsg() {
     let mut m: msghdr = unsafe { std::mem::zeroed() };
     m.msg_iov = iov.cast_mut();
     m.msg_iovlen = NIOV as _;
+    let flags: c_int = kani::any(); // every flag word: the wrapper must not change what it hands down because of a flag
     let nio: NioRecvmsgSyscall<Kernel> = NioRecvmsgSyscall::default();
-    let r = nio.recvmsg(None, 3, &raw mut m, 0);
+    let r = nio.recvmsg(None, 3, &raw mut m, flags);
     check_common(r, nb, vtotal());
     check_read_buffers();
     unsafe {
